@@ -375,6 +375,54 @@ def check(ix, rep):
         rep.fail('R-STATE', cv.module.rel, cv.qual, 'fresh-default', 'create_var_from_name() can return `%s`, an object it did not construct in this call: the default of a type is shared by '
                  'all variables of that type and by reset() -- the output object that update() writes the robustness into is then also the "default" a reset input starts from'
                  % ast.unparse(bad)[:60], bad.lineno)
+    # ---- the specification wrapper keeps no history of its own: reset() of the wrapper only forwards to the interpreter, so whatever the wrapper's
+    #      update() stores on the specification (or, through the forwarding properties, on the ast) survives reset().  Allowed: the guard flags
+    #      (assigned a Boolean literal) and anything the wrapper's own reset() assigns as well.
+    nwrap = 0
+    for cn in ('AbstractOnlineSpecification', 'AbstractOfflineOnlineSpecification'):
+        sc = ix.find_class('rtamt.spec.abstract_specification', cn)
+        if sc is None:
+            continue
+        upw = ix.resolve_method(sc, 'update')
+        rsw = ix.resolve_method(sc, 'reset')
+        if upw is None or rsw is None:
+            continue
+        nwrap += 1
+        rep.analysed(upw)
+
+        def self_stores(fnode):
+            out = []
+            for n in ast.walk(fnode):
+                tg = []
+                if isinstance(n, ast.Assign):
+                    tg = [(t, n.value) for t in n.targets]
+                elif isinstance(n, ast.AugAssign):
+                    tg = [(n.target, None)]
+                elif isinstance(n, ast.Call) and isinstance(n.func, ast.Attribute) and n.func.attr in ('append', 'extend', 'update', 'setdefault', 'pop', 'clear', 'add', 'insert', 'remove') \
+                        and ast.unparse(n.func.value).startswith('self.') and not ast.unparse(n.func.value).startswith(('self.online_interpreter', 'self.offline_interpreter')):
+                    tg = [(n.func.value, None)]
+                elif isinstance(n, ast.Call) and isinstance(n.func, ast.Name) and n.func.id == 'setattr' and n.args and ast.unparse(n.args[0]).startswith('self'):
+                    tg = [(n.args[0], None)]
+                for t, v in tg:
+                    for x in (t.elts if isinstance(t, (ast.Tuple, ast.List)) else [t]):
+                        base = x
+                        while isinstance(base, (ast.Subscript, ast.Attribute)):
+                            if isinstance(base, ast.Attribute) and isinstance(base.value, ast.Name) and base.value.id == 'self':
+                                out.append((base.attr, x, v, n))
+                                break
+                            base = base.value
+            return out
+        reset_attrs = {a for a, _, _, _ in self_stores(rsw.node)}
+        bad = [(a, x, n) for a, x, v, n in self_stores(upw.node)
+               if not (isinstance(x, ast.Attribute) and isinstance(v, ast.Constant) and isinstance(v.value, bool)) and a not in reset_attrs]
+        slot = '%s.update:wrapper-state' % cn
+        if bad:
+            a, x, n = bad[0]
+            rep.fail('R-STATE', upw.module.rel, upw.qual, slot, 'update() of the specification stores `%s`: the specification\'s reset() only forwards to the interpreter, so this value '
+                     'survives reset() -- a formula that reads it (the output variable, a published result) continues from the last value before the reset' % ast.unparse(x), n.lineno)
+        else:
+            rep.ok('R-STATE', upw.module.rel, upw.qual, slot, 'the wrapper stores nothing but its guard flags', upw.node.lineno)
+    rep.floor('specification wrappers checked for state of their own', nwrap, 1)
     # ---- (e) what reset() re-derives from must not have been altered in between -------------------------------
     if not astpure.self_test():
         raise AnalysisError('R-ASTPURE self-test: the positive example is not recognised')
